@@ -101,3 +101,6 @@ SPEC = {'id': 'C12',
  'trusted': ['Go stdlib modelled: encoding/json (Unmarshal into flat structs, Marshal with HTML escaping), '
              'strconv.ParseInt, encoding/hex.DecodeString, bytes.SplitN, strings.Split, unicode/utf8'],
  'assumptions': ['int is 64 bits']}
+
+SPEC['rule'] += (' Added after the seeded-change rounds: ' +
+    'Bodies above 64 KiB; client counts up to 2^63-1 (not only below 2^53); JSON null / number / array in place of every string member; fingerprints with non-hex bytes at every position.')
